@@ -194,6 +194,7 @@ api!(c_api_enc_256, c_api_dec_256, Aria256, 32, 16);
 // (recorded) run their results are unconstrained, in the second run the k-th call must be the inverse of the
 // (N-1-k)-th recorded call: its argument must equal that call's result, the layer type must be the opposite one
 // (SL1 undoes SL2 and vice versa, l_sl_inverse), and it returns that call's argument.
+// Solver: the remaining reasoning is GF(2)-linear (A is an involution, A(x ^ k) = A(x) ^ A(k)): z3 6 s, CaDiCaL > 400 s.
 rr_uf!(usub, u128);
 pub static mut TAG: [u8; 72] = [0; 72];
 #[allow(static_mut_refs)]
@@ -216,6 +217,7 @@ fn rt_fe(x: u128) -> u128 { bcref::aria::a(s2(x)) }
 macro_rules! roundtrip {
     ($fwd:ident, $rev:ident, $n:expr) => {
         #[kani::proof]
+        #[kani::solver(z3)]
         #[kani::stub(crate::utils::fo, rt_fo)]
         #[kani::stub(crate::utils::fe, rt_fe)]
         #[kani::stub(crate::utils::sl2, s2)]
@@ -239,6 +241,7 @@ macro_rules! roundtrip {
             assert!(eq_bytes16(&x, &b));
         }
         #[kani::proof]
+        #[kani::solver(z3)]
         #[kani::stub(crate::utils::fo, rt_fo)]
         #[kani::stub(crate::utils::fe, rt_fe)]
         #[kani::stub(crate::utils::sl2, s2)]
@@ -263,12 +266,12 @@ macro_rules! roundtrip {
         }
     };
 }
-// @ob name=l_roundtrip_128 props=C01 kind=lemma fn=aria::Aria128::encrypt_block,aria::Aria128::decrypt_block uses=c_fo,c_fe,c_sl2,l_sl_inverse,c_new_128 timeout=600
-// @ob name=l_roundtrip_rev_128 props=C01 kind=lemma fn=aria::Aria128::encrypt_block,aria::Aria128::decrypt_block uses=c_fo,c_fe,c_sl2,l_sl_inverse,c_new_128 timeout=600
+// @ob name=l_roundtrip_128 props=C01 kind=lemma fn=aria::Aria128::encrypt_block,aria::Aria128::decrypt_block uses=c_fo,c_fe,c_sl2,l_sl_inverse,c_new_128 solver=z3 timeout=600
+// @ob name=l_roundtrip_rev_128 props=C01 kind=lemma fn=aria::Aria128::encrypt_block,aria::Aria128::decrypt_block uses=c_fo,c_fe,c_sl2,l_sl_inverse,c_new_128 solver=z3 timeout=600
 roundtrip!(l_roundtrip_128, l_roundtrip_rev_128, 12);
-// @ob name=l_roundtrip_192 props=C01 kind=lemma fn=aria::Aria192::encrypt_block,aria::Aria192::decrypt_block uses=c_fo,c_fe,c_sl2,l_sl_inverse,c_new_192 timeout=600
-// @ob name=l_roundtrip_rev_192 props=C01 kind=lemma fn=aria::Aria192::encrypt_block,aria::Aria192::decrypt_block uses=c_fo,c_fe,c_sl2,l_sl_inverse,c_new_192 timeout=600
+// @ob name=l_roundtrip_192 props=C01 kind=lemma fn=aria::Aria192::encrypt_block,aria::Aria192::decrypt_block uses=c_fo,c_fe,c_sl2,l_sl_inverse,c_new_192 solver=z3 timeout=600
+// @ob name=l_roundtrip_rev_192 props=C01 kind=lemma fn=aria::Aria192::encrypt_block,aria::Aria192::decrypt_block uses=c_fo,c_fe,c_sl2,l_sl_inverse,c_new_192 solver=z3 timeout=600
 roundtrip!(l_roundtrip_192, l_roundtrip_rev_192, 14);
-// @ob name=l_roundtrip_256 props=C01 kind=lemma fn=aria::Aria256::encrypt_block,aria::Aria256::decrypt_block uses=c_fo,c_fe,c_sl2,l_sl_inverse,c_new_256 timeout=600
-// @ob name=l_roundtrip_rev_256 props=C01 kind=lemma fn=aria::Aria256::encrypt_block,aria::Aria256::decrypt_block uses=c_fo,c_fe,c_sl2,l_sl_inverse,c_new_256 timeout=600
+// @ob name=l_roundtrip_256 props=C01 kind=lemma fn=aria::Aria256::encrypt_block,aria::Aria256::decrypt_block uses=c_fo,c_fe,c_sl2,l_sl_inverse,c_new_256 solver=z3 timeout=600
+// @ob name=l_roundtrip_rev_256 props=C01 kind=lemma fn=aria::Aria256::encrypt_block,aria::Aria256::decrypt_block uses=c_fo,c_fe,c_sl2,l_sl_inverse,c_new_256 solver=z3 timeout=600
 roundtrip!(l_roundtrip_256, l_roundtrip_rev_256, 16);
